@@ -110,6 +110,9 @@ def run(name, n, schedule, cons):
             elif c == "D" and log.pending:
                 loop.do(aprobe.finish_delivery, log, max(log.pending))
                 idle[0] = 0
+            elif c == "x" and log.pending:
+                loop.do(aprobe.fail_delivery, log, min(log.pending))
+                idle[0] = 0
             elif c == "f":
                 live = [f for f in T.pending if not f.done()]
                 if live:
@@ -161,6 +164,8 @@ def run(name, n, schedule, cons):
                     pass
             elif k == "cons_done":
                 ev.append({"ev": "Consume", "k": d2k.get(e["d"], 0)})
+            elif k == "cons_fail":
+                ev.append({"ev": "Fail", "k": d2k.get(e["d"], 0)})
             elif k == "release" and e["fired"]:
                 ev.append({"ev": "Fire", "e": e["tag"]})
         ev.append({"ev": "End"})
@@ -190,6 +195,9 @@ def main():
             for _ in range(per if cons == "future" else per // 4):
                 n = rng.randint(3, 5)
                 sched = [rng.choice("eessssdddDaaffF") for _ in range(rng.randint(6, 24))]
+                if cons != "sync" and rng.random() < 0.3:
+                    # one consumer failure somewhere in the second half
+                    sched.insert(rng.randint(len(sched) // 2, len(sched)), "x")
                 runs.append(run(name, n, sched, cons))
     for i, r in enumerate(runs, start=1):
         r["id"] = i
